@@ -63,6 +63,17 @@ def c11(rec):
                             "what": f"{k} signed by {signer} changed the primary name of {a}: {p0.get(a)} -> {p1.get(a)}"})
     elif m == "notif":
         (k, v), = rec["op"].items()
+        if k == "delete":
+            import json as _j
+            signer = v["creator"].lower()
+            s0 = {_j.dumps(x): (x, y) for x, y in rec["pre"]["store"]}
+            s1 = {_j.dumps(x): (x, y) for x, y in rec["post"]["store"]}
+            for kk in set(s0) | set(s1):
+                a, b = s0.get(kk), s1.get(kk)
+                key = (a or b)[0]
+                own = key[0].get("s", {}).get("v", "") if key and isinstance(key[0], dict) else ""
+                if (a and a[1]) != (b and b[1]) and own.lower() != signer:
+                    out.append({"sig": {"prop": "C11", "kind": "foreign-inbox-touched"}, "what": f"deleteNotification signed by {v['creator']} changed an entry outside its own inbox: {kk[:120]}"})
         if k == "block":
             import json as _j
             signer = v["creator"]
